@@ -42,7 +42,7 @@ try:
     env = dict(os.environ, PYTHONPATH=wt)
     r0 = sh(['/venv/bin/python', demo], env=env, cwd=wt)
     res['demo_without_change_exit'] = r0.returncode
-    ra = sh(f'git -C {wt} apply --whitespace=nowarn {patch}')
+    ra = sh(f'git -C {wt} apply -3 --whitespace=nowarn {patch}')
     res['patch_applies'] = ra.returncode == 0
     if ra.returncode != 0:
         res['apply_error'] = ra.stderr[-500:]
@@ -80,7 +80,7 @@ if SCRATCH:
 else:
     st = sh('git -C /repo status --porcelain')
     assert not st.stdout.strip(), '/repo is not clean'
-    ra = sh(f'git -C /repo apply --whitespace=nowarn {patch}')
+    ra = sh(f'git -C /repo apply -3 --whitespace=nowarn {patch}')
 try:
     if ra is not None and ra.returncode == 0:
         ev = tempfile.mkdtemp(prefix='ev_', dir='/tmp')
